@@ -33,22 +33,32 @@ RULE = ('cases = (a) purity: every registry entry (public array-level function +
         'list) -> constructor or reset_values -> 3..10 operations of the C04 mutator/setting alphabet with the caller container '
         'compared bit-for-bit after every operation, then sentinel writes; object->object variants; (c) thorough: the '
         'repository\'s own test-suite run with the invariant and the generic purity wrapper attached. distinct = digest of '
-        'function/recipe inputs or (container, operation sequence); non-trivial = at least one array argument / one mutator.')
+        'function/recipe inputs or (container, operation sequence); non-trivial = at least one array argument / one mutator. '
+        '(d) object-level purity: every recipe that hands a signal object to an analysis function reads all public observables of a deep copy '
+        'before and after the call; sequences of 3..7 analysis functions on ONE shared object, each re-called afterwards and the object compared '
+        'with a fresh twin; (e) every signal object returned by a library function must own its data (identity, shared memory, in-place '
+        'correction of the result), including the option values where nothing needs doing (target_dt == dt, angle 0, zero shift).')
 ASSUMPTIONS = ['real-valued records (complex input to the Stockwell functions is outside the quantifier)',
                'an operation that raises on a container the statement does not promise to support (e.g. in-place corrections of an '
                'integer record) is counted, not judged; ownership and invariant assertions are evaluated after it all the same',
                'mutating an object through the array handed out by .values is not a public operation',
-               'attributes other than the array arguments (e.g. the swtf attribute cached on a signal by the Stockwell helpers) '
-               'are not "input arrays"']
+               'of a signal object handed to an analysis function the public observables (C04 list: values, time, spectra, '
+               'response_times, smoothing frequencies, peak values) must not change; private memo attributes (e.g. the swtf attribute '
+               'cached on a signal by the Stockwell helpers) are not "input arrays"']
 MIN_EVALS = {'quick': {'invariant(values numeric ndarray, len==npts, time==dt*arange)': 20000, 'purity.args-unchanged': 15000,
                        'purity.repeatable': 2000, 'purity.earlier-result-unchanged-by-later-call': 10000, 'ownership.caller-array-unchanged': 2500,
-                       'ownership.object-unaffected-by-caller-writes': 350, 'ownership.object-to-object': 150},
+                       'ownership.object-unaffected-by-caller-writes': 350, 'ownership.object-to-object': 150,
+                       'ownership.returned-signal-owns-its-data': 250, 'purity.repeatable-after-other-analysis-calls': 1800,
+                       'purity.signal-argument-observables-unchanged': 1800},
              'thorough': {'invariant(values numeric ndarray, len==npts, time==dt*arange)': 500000, 'purity.args-unchanged': 300000,
                           'purity.repeatable': 50000, 'purity.earlier-result-unchanged-by-later-call': 200000, 'ownership.caller-array-unchanged': 60000,
                           'ownership.object-unaffected-by-caller-writes': 8000, 'ownership.object-to-object': 3500,
+                          'ownership.returned-signal-owns-its-data': 6000, 'purity.repeatable-after-other-analysis-calls': 45000,
+                          'purity.signal-argument-observables-unchanged': 45000,
                           'testsuite-under-monitors.completed': 1}}
 CTX = None
 CURRENT = {'history': None}
+SHARED = {'on': False, 'sigs': {}}
 INV = 'invariant(values numeric ndarray, len==npts, time==dt*arange)'
 _INSTALLED = {'inv': False, 'purity': False}
 UNMONITORED = []
@@ -273,6 +283,12 @@ def recipes(eqsig):
     ds = eqsig.design_spectra
 
     def A(x, dt=0.01):
+        # within a shared-object sequence (drive_object_sequences) the same record object maps to the same AccSignal
+        if SHARED['on']:
+            key = (id(x), dt)
+            if key not in SHARED['sigs']:
+                SHARED['sigs'][key] = (eqsig.AccSignal(x, dt), x)
+            return SHARED['sigs'][key][0]
         return eqsig.AccSignal(x, dt)
     R = {}
 
@@ -391,6 +407,15 @@ def recipes(eqsig):
     reg('fns.join_sig_w_time_shift(sub)', lambda rng, x, k: (eqsig.join_sig_w_time_shift, (A(x), np.array([0.0, 0.02])), {'jtype': 'sub'}))
     reg('multiple.compute_rotated(func,offset)', lambda rng, x, k: (eqsig.compute_rotated, (A(x), A(x[::-1])), {'func': im.calc_cav, 'points': 4, 'angle_off_ns': 30.0}))
     reg('multiple.compute_rotated(arias)', lambda rng, x, k: (eqsig.compute_rotated, (A(x), A(x[::-1])), {'parameter': 'arias_intensity', 'points': 3}))
+    # signal-returning functions at the option values where "nothing to do" is tempting (the result must still own its data)
+    reg('fns.interp_to_approx_dt(target==dt)', lambda rng, x, k: (eqsig.interp_to_approx_dt, (A(x),), {'target_dt': 0.01, 'even': bool(rng.integers(2))}))
+    reg('fns.resample_to_approx_dt(target==dt)', lambda rng, x, k: (eqsig.resample_to_approx_dt, (A(x),), {'target_dt': 0.01, 'even': bool(rng.integers(2))}))
+    reg('fns.interp_array_to_approx_dt(target==dt)', lambda rng, x, k: (eqsig.interp_array_to_approx_dt, (x, 0.01, 0.01), {'even': bool(rng.integers(2))}))
+    reg('multiple.combine_at_angle(0/90/180)', lambda rng, x, k: (eqsig.combine_at_angle, (A(x), A(x[::-1]), float(rng.choice([0.0, 90.0, 180.0, 360.0]))), {}))
+    reg('fns.join_sig_w_time_shift(zero shift)', lambda rng, x, k: (eqsig.join_sig_w_time_shift, (A(x), np.array([0.0])), {}))
+    reg('im.cumulative_response_spectra(default periods)', lambda rng, x, k: (im.cumulative_response_spectra, (A(x), 'arias_intensity'), {}))
+    reg('im.calc_asi(default)', lambda rng, x, k: (im.calc_asi, (A(x),), {}))
+    reg('sdof.calc_resp_uke_spectrum(default periods)', lambda rng, x, k: (sdof.calc_resp_uke_spectrum, (A(x),), {}))
     reg('design_spectra.c_h_factor', lambda rng, x, k: (ds.c_h_factor, (np.array([0.0, 0.2, 0.7, 2.0, 4.0]), 'D'), {}))
     return R
 
@@ -422,6 +447,185 @@ def draw_record(rng):
     return c, kind, cls
 
 
+OBJ_PURE = 'purity.signal-argument-observables-unchanged'
+RES_OWN = 'ownership.returned-signal-owns-its-data'
+SEQ_REP = 'purity.repeatable-after-other-analysis-calls'
+
+
+def is_signal(a):
+    return hasattr(a, 'values') and hasattr(a, 'npts') and hasattr(a, 'dt') and hasattr(a, 'reset_values')
+
+
+def signal_args(args, kwargs):
+    return [a for a in list(args) + list(kwargs.values()) if is_signal(a)]
+
+
+def judge_signal_args(ctx, name, sigs, opre):
+    """an analysis function that is handed a signal object must leave every public observable of that object (values, time,
+    spectra, response_times, smoothing frequencies, ...) as it was: read on a deep copy before and after the call"""
+    for a, o1 in zip(sigs, opre):
+        try:
+            bad = H.diff_obs(o1, obs_all(a))
+        except Exception as e:
+            ctx.observe('observation-raised:' + type(e).__name__)
+            continue
+        ctx.check(not bad, OBJ_PURE, lambda: {'kind': 'repeat', 'recipe': CURRENT['recipe'], 'changed': bad},
+                  '%s changed observables %s of the signal object it was given' % (name, bad))
+
+
+INPLACE = ('rebase_displacement', 'set_zero_residual_velocity', 'set_zero_residual_displacement',
+           'set_zero_residual_displacement_and_velocity', 'running_average', 'remove_rolling_average', 'add_constant', 'butter_pass',
+           'remove_poly', 'remove_average')
+
+
+def judge_result_ownership(ctx, eqsig, name, result, args, kwargs, rng=None):
+    """a signal object returned by a library function owns its data: it is not one of the argument objects, its values share no
+    memory with an argument array or an argument signal's values, and an in-place correction of the result leaves the
+    arguments bit-for-bit unchanged"""
+    res = [r for r in (list(result) if isinstance(result, (tuple, list)) else [result]) if is_signal(r)]
+    if not res:
+        return
+    ins = list(args) + list(kwargs.values())
+    for r in res:
+        bad = []
+        for i, a in enumerate(ins):
+            if a is r:
+                bad.append('result is argument %d itself' % i)
+            elif is_signal(a) and isinstance(a.values, np.ndarray) and isinstance(r.values, np.ndarray) and np.shares_memory(a.values, r.values):
+                bad.append('result.values shares memory with the values of argument %d' % i)
+            elif isinstance(a, np.ndarray) and isinstance(r.values, np.ndarray) and a.dtype.kind in 'iufc' and np.shares_memory(a, r.values):
+                bad.append('result.values shares memory with argument array %d' % i)
+        if not bad:
+            # behavioural form: correct the result in place, the arguments must not move
+            pre = _pre_generic(args, kwargs)
+            try:
+                with warnings.catch_warnings():
+                    warnings.simplefilter('ignore')
+                    r.add_constant(0.5)
+                    if hasattr(r, 'remove_poly'):
+                        r.remove_poly(1)
+            except Exception as e:
+                ctx.observe('result-mutator-raised:' + type(e).__name__)
+            pa, pk = pre
+            for i, a in enumerate(args):
+                if pa[i] is not None and snap(a) != pa[i]:
+                    bad.append('argument %d changed when the returned signal was corrected in place' % i)
+            for k, v in kwargs.items():
+                if pk.get(k) is not None and snap(v) != pk[k]:
+                    bad.append('argument %s changed when the returned signal was corrected in place' % k)
+        ctx.check(not bad, RES_OWN, lambda: {'kind': 'repeat', 'recipe': CURRENT['recipe'], 'why': bad},
+                  'signal returned by %s does not own its data: %s' % (name, '; '.join(bad)))
+
+
+def run_sequence(ctx, eqsig, x, kind, rng, fixed_names=None):
+    """one shared-object sequence; fixed_names (replay) gives the recipe names in order, otherwise they are drawn"""
+    R = recipes(eqsig)
+    names = sorted(R)
+    SHARED['on'] = True
+    SHARED['sigs'] = {}
+    CURRENT['history'] = None
+    done = []
+    try:
+        k_target = len(fixed_names) if fixed_names is not None else int(rng.integers(3, 8))
+        tries = 0
+        while len(done) < k_target and tries < 60:
+            name = fixed_names[tries] if fixed_names is not None else names[int(rng.integers(len(names)))]
+            tries += 1
+            if fixed_names is not None and tries > len(fixed_names):
+                break
+            try:
+                with warnings.catch_warnings():
+                    warnings.simplefilter('ignore')
+                    f, args, kwargs = R[name](rng, x, kind)
+            except Exception:
+                continue
+            sh = SHARED['sigs'].get((id(x), 0.01))
+            if sh is None or not any(a is sh[0] for a in list(args) + list(kwargs.values())):
+                continue
+            try:
+                with warnings.catch_warnings():
+                    warnings.simplefilter('ignore')
+                    r = f(*args, **kwargs)
+            except Exception as e:
+                ctx.observe('raises(%s):%s:%s' % (kind, name, type(e).__name__))
+                continue
+            done.append((name, f, args, kwargs, r))
+            if fixed_names is not None and tries >= len(fixed_names):
+                break
+        if len(done) < 2:
+            return
+        shared, x_used = SHARED['sigs'][(id(x), 0.01)]
+        seq = [d[0] for d in done]
+        CURRENT['recipe'] = {'name': 'sequence', 'kind': kind, 'record': np.asarray(x), 'sequence': seq}
+        ctx.case(core.digest('seq', np.asarray(x), kind, seq), nontrivial=True, cls='object-sequence/' + kind,
+                 sample={'sequence': seq, 'container': kind})
+        ctx.keyset('analysis pairs (earlier, later) on one object').update(
+            (done[i][0], done[j][0]) for i in range(len(done)) for j in range(i + 1, len(done)))
+        for name, f, args, kwargs, r in done:
+            try:
+                with warnings.catch_warnings():
+                    warnings.simplefilter('ignore')
+                    r2 = f(*args, **kwargs)
+                ctx.check(same_result(r, r2), SEQ_REP,
+                          lambda: {'kind': 'sequence', 'recipe': CURRENT['recipe'], 'function': name},
+                          '%s returned a different result after %s had been applied to the same signal object' % (name, seq))
+            except Exception as e:
+                ctx.violation(SEQ_REP, {'kind': 'sequence', 'recipe': CURRENT['recipe'], 'function': name},
+                              '%s raised when called again after %s on the same object: %r' % (name, seq, e))
+        try:
+            with warnings.catch_warnings():
+                warnings.simplefilter('ignore')
+                twin = eqsig.AccSignal(x_used, 0.01)
+            bad = H.diff_obs(obs_all(twin), obs_all(shared))
+            ctx.check(not bad, OBJ_PURE, lambda: {'kind': 'sequence', 'recipe': CURRENT['recipe'], 'changed': bad},
+                      'after the analysis calls %s the signal object differs from a fresh twin in %s' % (seq, bad))
+        except Exception as e:
+            ctx.observe('observation-raised:' + type(e).__name__)
+    finally:
+        SHARED['on'] = False
+        SHARED['sigs'] = {}
+
+
+def drive_object_sequences(ctx, eqsig, nseq):
+    """several analysis functions are applied to ONE signal object; afterwards every one of them, called again with the same
+    arguments, must return what it returned the first time, and the object's observables must be those of a fresh twin"""
+    for q in range(nseq):
+        x, kind, cls = draw_record(ctx.rng)
+        run_sequence(ctx, eqsig, x, kind, ctx.rng)
+    CURRENT['recipe'] = None
+
+
+def replay_sequence(ctx, eqsig, x, kind, names):
+    run_sequence(ctx, eqsig, x, kind, np.random.default_rng(0), fixed_names=list(names))
+
+
+def judge_one_recipe(ctx, eqsig, name, f, args, kwargs, kind):
+    pre = _pre_generic(args, kwargs)
+    sigs = signal_args(args, kwargs)
+    opre = [obs_all(a) for a in sigs]
+    try:
+        with warnings.catch_warnings():
+            warnings.simplefilter('ignore')
+            r1 = f(*args, **kwargs)
+    except Exception as e:
+        ctx.observe('raises(%s):%s:%s' % (kind, name, type(e).__name__))
+        judge_purity('recipe:' + name, args, kwargs, pre, raised=True)
+        note_readonly_write('recipe:' + name, args, kwargs, e)
+        judge_signal_args(ctx, name, sigs, opre)
+        return
+    judge_purity('recipe:' + name, args, kwargs, pre)
+    judge_signal_args(ctx, name, sigs, opre)
+    try:
+        with warnings.catch_warnings():
+            warnings.simplefilter('ignore')
+            r2 = f(*args, **kwargs)
+        ctx.check(same_result(r1, r2), 'purity.repeatable',
+                  lambda: {'kind': 'repeat', 'recipe': CURRENT['recipe']}, '%s returned a different result when called again (%s input)' % (name, kind))
+    except Exception as e:
+        ctx.violation('purity.repeatable', {'kind': 'repeat', 'recipe': CURRENT['recipe']}, '%s raised on the second call only: %r' % (name, e))
+    judge_result_ownership(ctx, eqsig, name, r1, args, kwargs)
+
+
 def drive_purity(ctx, eqsig, draws):
     R = recipes(eqsig)
     names = sorted(R)
@@ -445,25 +649,7 @@ def drive_purity(ctx, eqsig, draws):
             nontriv = any(snap(a) is not None for a in args)
             ctx.case(core.digest(name, np.asarray(x), kind, d), nontrivial=nontriv, cls='purity/' + kind,
                      sample={'function': name, 'container': kind, 'n': len(x), 'class': cls})
-            pre = _pre_generic(args, kwargs)
-            try:
-                with warnings.catch_warnings():
-                    warnings.simplefilter('ignore')
-                    r1 = f(*args, **kwargs)
-            except Exception as e:
-                ctx.observe('raises(%s):%s:%s' % (kind, name, type(e).__name__))
-                judge_purity('recipe:' + name, args, kwargs, pre, raised=True)
-                note_readonly_write('recipe:' + name, args, kwargs, e)
-                continue
-            judge_purity('recipe:' + name, args, kwargs, pre)
-            try:
-                with warnings.catch_warnings():
-                    warnings.simplefilter('ignore')
-                    r2 = f(*args, **kwargs)
-                ctx.check(same_result(r1, r2), 'purity.repeatable',
-                          lambda: {'kind': 'repeat', 'recipe': CURRENT['recipe']}, '%s returned a different result when called again (%s input)' % (name, kind))
-            except Exception as e:
-                ctx.violation('purity.repeatable', {'kind': 'repeat', 'recipe': CURRENT['recipe']}, '%s raised on the second call only: %r' % (name, e))
+            judge_one_recipe(ctx, eqsig, name, f, args, kwargs, kind)
     CURRENT['recipe'] = None
     # public callables without a recipe (reported, not judged)
     import importlib
@@ -639,6 +825,7 @@ def run_shard(ctx):
     install(ctx)
     quick = ctx.tier == 'quick'
     drive_purity(ctx, eqsig, 40 if quick else 1000)
+    drive_object_sequences(ctx, eqsig, (640 if quick else 16000) // ctx.nshards + 1)
     drive_ownership(ctx, eqsig, (480 if quick else 10000) // ctx.nshards + 1)
     # mutator sequences under the invariant (C04's alphabet, integer/list containers included)
     rng = ctx.rng
@@ -702,21 +889,21 @@ def replay(w):
     ctx = core.Ctx(PROP_ID, 'quick', 0, 0, 1)
     install(ctx)
     kind = w.get('kind')
-    if kind in ('purity', 'repeat') and w.get('recipe'):
+    if kind in ('purity', 'repeat') and w.get('recipe') and w['recipe'].get('name') != 'sequence':
         rc = w['recipe']
         R = recipes(eqsig)
         x = rc['record']
         if rc['kind'] == 'list':
             x = [float(v) for v in np.asarray(x)]
+        CURRENT['recipe'] = rc
         f, args, kwargs = R[rc['name']](np.random.default_rng(0), x, rc['kind'])
-        pre = _pre_generic(args, kwargs)
-        try:
-            r1 = f(*args, **kwargs)
-            judge_purity('recipe:' + rc['name'], args, kwargs, pre)
-            r2 = f(*args, **kwargs)
-            ctx.check(same_result(r1, r2), 'purity.repeatable', None, 'not repeatable')
-        except Exception:
-            judge_purity('recipe:' + rc['name'], args, kwargs, pre, raised=True)
+        judge_one_recipe(ctx, eqsig, rc['name'], f, args, kwargs, rc['kind'])
+    elif kind == 'sequence' and w.get('recipe'):
+        rc = w['recipe']
+        x = rc['record']
+        if rc['kind'] == 'list':
+            x = [float(v) for v in np.asarray(x)]
+        replay_sequence(ctx, eqsig, x, rc['kind'], rc.get('sequence', []))
     elif kind == 'ownership':
         A = w['A']
         if w.get('container') == 'list':
